@@ -30,13 +30,26 @@ pub fn item_label(it: &ItemSpec) -> String {
 }
 
 /// Execute `init` (program on its EXEC stack) for at most `max_steps` steps.
-/// `skip_values_for`: instructions whose value is not compared (RAND etc.).
+/// `skip(name, state before)`: steps whose value is not compared (RAND, unspecified corners).
 pub fn lockstep(
     prop: &str,
     init: &StateSpec,
     max_steps: usize,
     registered: &std::collections::BTreeSet<String>,
-    skip: &dyn Fn(&str) -> bool,
+    skip: &dyn Fn(&str, &StateSpec) -> bool,
+) -> Result<LockResult, Fail> {
+    lockstep_opts(prop, init, max_steps, registered, skip, false)
+}
+
+/// `clamp`: apply the resource envelope's size-operand clamp (on the real state and on the
+/// reference's state alike) before every step - needed for programs over the whole registry.
+pub fn lockstep_opts(
+    prop: &str,
+    init: &StateSpec,
+    max_steps: usize,
+    registered: &std::collections::BTreeSet<String>,
+    skip: &dyn Fn(&str, &StateSpec) -> bool,
+    clamp: bool,
 ) -> Result<LockResult, Fail> {
     crate::supervise::journal_program(prop, init, max_steps, "step");
     let (mut real, _) = init.build();
@@ -45,6 +58,12 @@ pub fn lockstep(
     let mut res = LockResult::default();
     let is_reg = |n: &str| registered.contains(n);
     for _ in 0..max_steps {
+        if clamp {
+            if let Some(ItemSpec::Instr(n)) = cur.exec.first().cloned() {
+                crate::envelope::clamp_sizes(&mut real);
+                crate::envelope::clamp_sizes_spec(&mut cur, &n);
+            }
+        }
         let label = cur.exec.first().map(item_label).unwrap_or_else(|| "<empty>".into());
         let (fin_ref, expect) = ref_step(&cur, &is_reg);
         let r = guarded(|| with_machine(|m| m.step(&mut real)));
@@ -81,7 +100,7 @@ pub fn lockstep(
         }
         res.steps += 1;
         let is_instr = matches!(cur.exec.first(), Some(ItemSpec::Instr(_)));
-        if is_instr && skip(&label) {
+        if is_instr && skip(&label, &cur) {
             res.unspecified += 1;
         } else {
             match expect.judge(&snap) {
